@@ -19,7 +19,7 @@ import (
 	"go.uber.org/zap/zapcore"
 )
 
-func TestVerifOpenThrottleZeroIntervalNegativeCount(t *testing.T) {
+func TestVerifThrottleZeroIntervalNegativeCount(t *testing.T) {
 	const input = `{"k8s_pod":"pod_1","level":"info"}`
 	cases := []struct {
 		name    string
